@@ -245,6 +245,26 @@ func DeepCopy(v Value, memo map[interface{}]Value) Value {
 			r = append(r, DeepCopy(e, memo))
 		}
 		return r
+	case *ListVal:
+		if r, ok := memo[t]; ok {
+			return r
+		}
+		r := &ListVal{}
+		memo[t] = r
+		for _, e := range t.Elems {
+			r.Elems = append(r.Elems, DeepCopy(e, memo))
+		}
+		return r
+	case *LocalVec:
+		if r, ok := memo[t]; ok {
+			return r
+		}
+		r := &LocalVec{Len: t.Len, Cells: map[string]*Loc{}}
+		memo[t] = r
+		for k, c := range t.Cells {
+			r.Cells[k] = DeepCopy(c, memo).(*Loc)
+		}
+		return r
 	}
 	return v
 }
@@ -455,6 +475,11 @@ func (it *Interp) localVecMethod(v *LocalVec, name string, call *ast.CallExpr) V
 		return l
 	case "Dim":
 		return v.Len
+	case "Map":
+		if cl, ok := it.eval(call.Args[0]).(*Closure); ok {
+			it.mapCells(v, cl, call.Pos())
+			return NilVal{}
+		}
 	case "ElementType":
 		return &OpaqueVal{"scalartype"}
 	}
